@@ -252,6 +252,13 @@ def run_property(prop, tier, run_fn, configs, explanation, technique, assumption
         print('  rule=%s key=%s' % (v['rule'], v['key']))
         print('  at %s: %s' % (v['loc'] or '?', v['msg']))
 
+    audit = None
+    if tier == 'thorough' and not replay and not os.environ.get('VERIF_NO_AUDIT'):
+        try:
+            audit = mutant_audit(prop)
+        except Exception as e:  # the audit never decides the verdict
+            audit = {'error': repr(e)}
+
     # evidence
     n_inst = sum(len(rep.rules[r]['instances']) for r in rep.order)
     n_ok = sum(1 for r in rep.order for i in rep.rules[r]['instances'] if i['ok'])
@@ -296,6 +303,7 @@ def run_property(prop, tier, run_fn, configs, explanation, technique, assumption
             'repo_hash': ctx.hash if ctx else None,
             'known_findings_reported': [v['key'] for v, _ in kf],
             'exhaustive': False,
+            'mutant_audit': audit,
         },
         'assumptions': assumptions + rep.assumptions,
         'wall_s': round(time.time() - t0, 2),
@@ -309,3 +317,48 @@ def run_property(prop, tier, run_fn, configs, explanation, technique, assumption
     print('%s tier=%s rules=%d instances=%d held=%d known=%d violations=%d wall=%.1fs' % (
         prop, tier, len(rep.order), n_inst, n_ok, len(kf), len(new), time.time() - t0))
     return 1 if new else 0
+
+
+# ----------------------------------------------------------------------------
+# thorough tier: checker self-test on scratch copies (never /repo itself)
+# ----------------------------------------------------------------------------
+
+def mutant_audit(prop):
+    """apply every selftest mutant and every seeded change recorded for `prop` to a scratch copy of the
+    repository, re-run this property's rules there and record which rule fired.  Missed mutants are checker
+    gaps: they are reported in the evidence and do not change the exit code."""
+    import shutil
+    import tempfile
+    items = []
+    idx = os.path.join(VERIF, 'selftest', 'patches', 'index.json')
+    if os.path.exists(idx):
+        for m in json.load(open(idx)):
+            if m['property'] == prop:
+                items.append(('selftest:' + m['name'], os.path.join(VERIF, 'selftest', 'patches', m['name'] + '.diff'), 'patch'))
+    sd = os.path.join(VERIF, 'seeded')
+    if os.path.isdir(sd):
+        for d in sorted(os.listdir(sd)):
+            mp = os.path.join(sd, d, 'meta.json')
+            if os.path.exists(mp) and json.load(open(mp)).get('property') == prop:
+                items.append(('seeded:' + d, os.path.join(sd, d, 'patch.diff'), 'git'))
+    out = []
+    for name, patch, kind in items:
+        w = tempfile.mkdtemp(prefix='audit.')
+        repo = os.path.join(w, 'repo')
+        os.makedirs(repo)
+        subprocess.run('cd %s && git ls-files -z | xargs -0 cp --parents -t %s; cp %s/Cargo.lock %s/ 2>/dev/null' % (REPO, repo, REPO, repo), shell=True)
+        ok = subprocess.run(['patch', '-p1', '-s', '-i', patch], cwd=repo, stdout=subprocess.DEVNULL, stderr=subprocess.DEVNULL).returncode == 0
+        rec = {'mutant': name, 'applied': ok}
+        if ok:
+            tag = '-audit-' + name.split(':')[1]
+            env = dict(os.environ, VERIF_REPO=repo, VERIF_TAG=tag)
+            o = subprocess.run([os.path.join(VERIF, 'bin', 'run_all.py'), prop], env=env, stdout=subprocess.PIPE, stderr=subprocess.STDOUT, text=True).stdout
+            rec['fired'] = ('FIRED: ' + prop) in o
+            rec['rules'] = sorted(set(l.strip().split('|')[0] for l in o.splitlines() if l.startswith('    ')))[:5]
+            for f in os.listdir(os.path.join(CACHE, 'facts')):
+                if tag + '.' in f:
+                    os.remove(os.path.join(CACHE, 'facts', f))
+        shutil.rmtree(w, ignore_errors=True)
+        out.append(rec)
+    return {'mutants': len(out), 'fired': sum(1 for r in out if r.get('fired')),
+            'missed': [r['mutant'] for r in out if r.get('applied') and not r.get('fired')], 'results': out}
